@@ -55,12 +55,12 @@ ANCHORS = [
     "txtorcon.socks:resolve_ptr",
 ]
 FLOORS = {
-    "quick": {"evaluations": 4000, "greetings_decoded": 4000, "requests_decoded": 3000, "unencodable_judged": 100,
-              "ports_distinct_shard_sum": 400,
-              "reach:txtorcon.socks:_SocksMachine._send_connect_request": 1500,
-              "reach:txtorcon.socks:_SocksMachine._send_resolve_request": 500,
-              "reach:txtorcon.socks:_SocksMachine._send_resolve_ptr_request": 200,
-              "reach:txtorcon.socks:TorSocksEndpoint.connect": 300},
+    "quick": {"evaluations": 4500, "greetings_decoded": 4500, "requests_decoded": 2900, "unencodable_judged": 400,
+              "ports_distinct_shard_sum": 900, "checked_after_half_method_reply": 1000,
+              "reach:txtorcon.socks:_SocksMachine._send_connect_request": 2000,
+              "reach:txtorcon.socks:_SocksMachine._send_resolve_request": 1500,
+              "reach:txtorcon.socks:_SocksMachine._send_resolve_ptr_request": 700,
+              "reach:txtorcon.socks:TorSocksEndpoint.connect": 700},
     "thorough": {"evaluations": 60000, "greetings_decoded": 60000, "requests_decoded": 50000,
                  "unencodable_judged": 500, "ports_distinct_shard_sum": 65536,
                  "reach:txtorcon.socks:_SocksMachine._send_connect_request": 25000,
@@ -445,6 +445,7 @@ def judge(case, obs, rec):
         V("request-address-type", {"request": R, "parser": str(e)})
         return bad, True
     rec.count("requests_decoded")
+    rec.seen("requests_on_wire", "%s: cmd=%02x atyp=%d" % (icls, r["cmd"], r["atyp"]))
     if used != len(R):
         V("request-trailing-bytes", {"request": R[:used], "trailing": R[used:used + 40]})
     if r["ver"] != 5:
